@@ -885,8 +885,15 @@ def knot_refinement(degree, knotvector, ctrlpts, **kwargs):
     if add_knot_list:
         knot_list = list(knot_list) + list(add_knot_list)
 
+    def existing_knot(val):
+        # A value which coincides with a knot of the knot vector within the tolerance is that knot (as in find_multiplicity)
+        for knot in knotvector:
+            if abs(val - knot) <= tol:
+                return knot
+        return val
+
     # Sort the list and convert to a set to make sure that the values are unique
-    knot_list = sorted(set(knot_list))
+    knot_list = sorted(set(existing_knot(mk) for mk in knot_list))
 
     # Increase knot density
     for d in range(0, density):
@@ -896,7 +903,7 @@ def knot_refinement(degree, knotvector, ctrlpts, **kwargs):
             rknots.append(knot_list[i])
             rknots.append(knot_tmp)
         rknots.append(knot_list[-1])
-        knot_list = rknots
+        knot_list = sorted(set(existing_knot(mk) for mk in rknots))
 
     # Find how many knot insertions are necessary
     X = []
